@@ -4,7 +4,7 @@ import random
 
 from harness import l3
 from harness.c03_lib import (DEFAULT_LENS, M, bounds_of, boundary_candidates, clause_feasibility, compile_contract, expected_bounds, parse_bounds,
-                             parse_codes, sig_of, z3_candidates)
+                             parse_codes, sig_of, storage_of, z3_candidates)
 
 
 def flags_for(r, sig, all_sigs):
@@ -28,15 +28,17 @@ def l3_worker(task):
     desc, options = task["desc"], list(task["options"])
     codes = parse_codes(task.get("code_opt"))
     rt, c = compile_contract(desc)
-    with l3.Project([c], base=task.get("_base")) as p:
-        r = p.run(options, timeout=task.get("timeout", 100))
+    from harness import c03_row
+
+    with c03_row.InjProject([c], base=task.get("_base")) as p:
+        r = p.run(options, timeout=task.get("timeout", 100), inject=task.get("inject"))
     t_halmos = time.time() - t0
-    storage = {s: v % M for s, v in desc.get("setup", [])}
     rng = random.Random(task.get("seed", 0))
     cands = {}
     all_sigs = [sig_of(x) for x in desc["tests"]]
     for t in desc["tests"]:
         sig = sig_of(t)
+        storage = storage_of(desc, t)
         printed = parse_bounds((r.tests.get(sig) or {}).get("bounds"))
         bounds = {}
         pn = t.get("pnames") or [f"a{i}" for i in range(len(t["params"]))]
